@@ -1360,7 +1360,7 @@ func compileExpr(context *funcContext, reg int, expr ast.Expr, ec *expcontext) i
 		}
 		context.Proto.IsVarArg &= ^VarArgNeedsArg
 		code.AddABC(OP_VARARG, sreg, 2+ec.varargopt, 0, sline(ex))
-		if context.RegTop() > (sreg+2+ec.varargopt) || ec.varargopt < -1 {
+		if ec.varargopt < -1 {
 			return 0
 		}
 		return (sreg + 1 + ec.varargopt) - reg
@@ -1903,7 +1903,9 @@ func compileFuncCallExpr(context *funcContext, reg int, expr *ast.FuncCallExpr, 
 		context.Code.AddABC(OP_MOVE, ec.reg, funcreg, 0, sline(expr))
 		return 1
 	}
-	if context.RegTop() > (funcreg+2+ec.varargopt) || ec.varargopt < -1 {
+	// the results occupy funcreg.. whatever locals are declared above them (the hidden
+	// variables of a generic for are declared before its expression list is compiled)
+	if ec.varargopt < -1 {
 		return 0
 	}
 	return ec.varargopt + 1
